@@ -535,3 +535,15 @@ PROPS['C19'] = dict(
     nontrivial=lambda inp, o: (inp.startswith('recvseq ') or recv_decoded(inp, o)) if is_recv_line(inp) else _c19['nontrivial'](inp, o),
     rule=_c19['rule'] + ' || byte level: mode recv, recvseq lines - four rounds of two probes each, built by the real dispatch, quoted by a conforming router and delivered to ONE Channel (the non-fixed port changes per round); oracle for Dublin/IPv4: expected checksum = quoted checksum when nothing rewrote the datagram',
 )
+
+
+# ---- builder settings reach the core configurations (tracer.rs make_*_config): mode cfgmap joins C16 (what the core executes with
+# is what passed validation) and C11 ("as configured")
+for _pid, _extra in (('C16', 'C16'), ('C11', 'C11')):
+    _p = PROPS[_pid]
+    PROPS[_pid] = dict(
+        _p, crates=sorted(set(_p['crates']) | {'hcore'}), modes=_p['modes'] + [('hcore', 'cfgmap')],
+        compare=(lambda q: (lambda inp, a, b: (a == b or a == 'rejected') if inp.startswith('cfgmap ') else q['compare'](inp, a, b)))(_p),
+        nontrivial=(lambda q: (lambda inp, o: (o != 'rejected') if inp.startswith('cfgmap ') else q['nontrivial'](inp, o)))(_p),
+        rule=_p['rule'] + ' || builder settings -> core configuration: 400 (thorough 5000) tracers built through the real Builder with random, pairwise distinct values for all 23 settings; channel / strategy / state configuration read back (hooks, snapshot before and after clear, getters); oracle: every field equals the setting',
+    )
